@@ -699,7 +699,8 @@ func (s *state) evaldef(n ast.Node) data.Value {
 }
 
 var (
-	htmlQuot = []byte("&#34;") // shorter than "&quot;"
+	htmlQuot = []byte("&quot;") // as the javascript backend (soyutils) and the official implementation write it
+	htmlNull = []byte("&#0;")
 	htmlApos = []byte("&#39;") // shorter than "&apos;" and apos was not in HTML until HTML5
 	htmlAmp  = []byte("&amp;")
 	htmlLt   = []byte("&lt;")
@@ -713,6 +714,8 @@ func htmlEscapeString(w io.Writer, str string) error {
 	for i := 0; i < len(str); i++ {
 		var html []byte
 		switch str[i] {
+		case 0:
+			html = htmlNull
 		case '"':
 			html = htmlQuot
 		case '\'':
